@@ -306,7 +306,7 @@ pub fn run(tier: &str) -> Result<Report, String> {
         use crate::formulas::{Bi, Hy, Un};
         use crate::trees::{TreeAlphabet, TreeGen};
         let sv = |v: &[&str]| v.iter().map(|x| x.to_string()).collect::<Vec<_>>();
-        let alpha = TreeAlphabet { consts: vec![], props: sv(&["a"]), vars: sv(&["x", "y"]), wilds: vec![], doms: vec![], un: vec![Un::AX], bi: vec![Bi::And], quant: vec![Hy::Bind, Hy::Exists, Hy::Forall], jump: true };
+        let alpha = TreeAlphabet { consts: vec![], props: sv(&["a"]), vars: sv(&["x", "y"]), wilds: vec![], doms: sv(&["d"]), un: vec![Un::AX], bi: vec![Bi::And], quant: vec![Hy::Bind, Hy::Exists, Hy::Forall], jump: true };
         let smax = if tier == "quick" { 5 } else { 7 };
         let mut tg = TreeGen::new(alpha.clone());
         let mut total = 0u64;
@@ -438,7 +438,7 @@ pub fn run(tier: &str) -> Result<Report, String> {
     rep.sample(json!({"input": "!{x}: @{y}: a", "expected": "Err from every entry point (free jump target), for every k"}));
     rep.sample(json!({"input": "3{y} in %d%: ~ {y}", "labels_present": ["p"], "expected": "Err (domain d has no context set)"}));
     rep.sample(json!({"input": "3{y} in %d%: ~ {y}", "labels_present": ["p", "d"], "k": 0, "expected": "Err (needs 1 spare variable set)"}));
-    rep.rule = format!("(a) every sequence of 1..{t} tokens over {TOKENS:?} and every string of 1..{k} symbols over {CHARS:?} through all 25 string entry points (plain, dirty, multiple, extended, unsafe_ex, callback variants, lists [valid,s] / [s,valid] with a short and with a tall valid formula) on graphs with k=0,2 (k=0..3 when the grammar derives the string) spare variable sets; (a2) every sequence of <= 3 (4) tokens over {{EF_x, _x, EF, AG_x, EX_x, AG, ~, &, EU_x, EU, (, ), AX_, x}} on a network with the variables EF_x and _x; (b) every closed extended formula with <= {m} nodes x every subset of its required labels (sets: mixed / empty / full / colour-disjoint families) x k in {{depth-1, depth, 3}}; (b2) every tree with at most 5 (thorough 7) nodes over the binder-focused alphabet {{a, x, y, AX, &, !, 3, V, @}} printed and given to all 25 entry points (ill-scoped: Err; well-scoped: Ok when k suffices); (c) {} deep / long inputs (nesting 10 and 40; long names of 2-, 3- and 4-byte characters at every byte alignment; 7 kinds of Unicode white space in every gap of every hybrid operator header). Oracle: Ok iff reference parser accepts, scope rules hold, all labels present and k >= nesting depth; Err otherwise; a panic is always a violation. distinct_nontrivial = number of enumerated strings the grammar derives", deep.len());
+    rep.rule = format!("(a) every sequence of 1..{t} tokens over {TOKENS:?} and every string of 1..{k} symbols over {CHARS:?} through all 25 string entry points (plain, dirty, multiple, extended, unsafe_ex, callback variants, lists [valid,s] / [s,valid] with a short and with a tall valid formula) on graphs with k=0,2 (k=0..3 when the grammar derives the string) spare variable sets; (a2) every sequence of <= 3 (4) tokens over {{EF_x, _x, EF, AG_x, EX_x, AG, ~, &, EU_x, EU, (, ), AX_, x}} on a network with the variables EF_x and _x; (b) every closed extended formula with <= {m} nodes x every subset of its required labels (sets: mixed / empty / full / colour-disjoint families) x k in {{depth-1, depth, 3}}; (b2) every tree with at most 5 (thorough 7) nodes over the binder-focused alphabet {{a, x, y, AX, &, @, and ! / 3 / V each without and with the domain %d%}} printed and given to all 25 entry points (ill-scoped: Err; well-scoped: Ok when k suffices); (c) {} deep / long inputs (nesting 10 and 40; long names of 2-, 3- and 4-byte characters at every byte alignment; 7 kinds of Unicode white space in every gap of every hybrid operator header). Oracle: Ok iff reference parser accepts, scope rules hold, all labels present and k >= nesting depth; Err otherwise; a panic is always a violation. distinct_nontrivial = number of enumerated strings the grammar derives", deep.len());
     rep.assumptions.push("context sets satisfy the documented precondition (inside the unit set, independent of auxiliary variables)".into());
     Ok(rep)
 }
